@@ -276,6 +276,8 @@ class ReaderModel(object):
                     # key built in a loop over a literal list (e.g. for func_id in [...]: _glibns(func_id))
                     ks = self.loop_keys(key, f)
                     if ks is None:
+                        ks = self.param_keys(key, f)
+                    if ks is None:
                         raise AnalysisError('%s:%d: attribute key does not fold: %s' % (mname, n.lineno, P.src(key)))
                 else:
                     ks = [k]
@@ -299,6 +301,27 @@ class ReaderModel(object):
                             return None
                     return out
         return None
+
+    def param_keys(self, key, f):
+        """key that is a parameter of the reading helper: the constants passed at the call sites inside the class"""
+        if not isinstance(key, ast.Name) or key.id not in [a.arg for a in f.args.args]:
+            return None
+        out = []
+        for mname, g in self.methods.items():
+            for c in P.calls_in(g):
+                if P.call_name(c) == 'self.' + f.name:
+                    a = P.bind_call(c, f).get(key.id)
+                    if a is None:
+                        d = P.param_defaults(f).get(key.id)
+                        a = d
+                    if a is None:
+                        return None
+                    k = self.fold(a)
+                    if not isinstance(k, str):
+                        return None
+                    if k not in out:
+                        out.append(k)
+        return out or None
 
     # ------------------------------------------------------------------ views
     def keys_by_tag(self):
